@@ -11,7 +11,7 @@ META = {
     "note": "Universe: repository fixtures x 3 configurations + 2 input variants + generated micro designs. Known findings of the unchanged tree are listed in known_findings.json by (rule, file, configuration, variant).",
 }
 
-DEDUCTIVE = []
+DEDUCTIVE = ["vsg.rule_list.rule_list.fix"]
 
 
 def run():
